@@ -53,6 +53,8 @@ pub fn run_case(c: &Value) -> Value {
                     "unban": pl.user_can_unban_user(a, b), "invite": pl.user_can_invite(a),
                     "msg": pl.user_can_send_message(a, MessageLikeEventType::RoomMessage),
                     "topic": pl.user_can_send_state(a, StateEventType::RoomTopic),
+                    "topicmsg": pl.user_can_send_message(a, MessageLikeEventType::from("m.room.topic")),
+                    "tpi": pl.user_can_send_state(a, StateEventType::RoomThirdPartyInvite),
                     "notif": pl.user_can_trigger_room_notification(a),
                     "la": i64::from(pl.for_user(a)), "lb": i64::from(pl.for_user(b)),
                 });
@@ -92,6 +94,10 @@ pub fn run_case(c: &Value) -> Value {
                              "auth": ["$create"], "roomserver": "s1", "idserver": "s1", "c": {"none": true}})),
             ("a_topic", json!({"id": "$e", "type": "m.room.topic", "sender": "@a:s1", "haskey": true, "key": "", "prev": ["$p"],
                                "auth": ["$create"], "roomserver": "s1", "idserver": "s1", "c": {"none": true}})),
+            ("a_topicmsg", json!({"id": "$e", "type": "m.room.topic", "sender": "@a:s1", "haskey": false, "key": "", "prev": ["$p"],
+                                  "auth": ["$create"], "roomserver": "s1", "idserver": "s1", "c": {"none": true}})),
+            ("a_tpi", json!({"id": "$e", "type": "m.room.third_party_invite", "sender": "@a:s1", "haskey": true, "key": "tok9", "prev": ["$p"],
+                             "auth": ["$create"], "roomserver": "s1", "idserver": "s1", "c": {"none": true}})),
         ];
         let mut refs: Vec<&Value> = st.iter().collect();
         refs.push(&cands[0].1);
